@@ -226,6 +226,10 @@ def build_history(symbols, r=None, empty=False):
         st = step_of(s, pos, model, r)
         if st is not None:
             steps.append(st)
+            if st["op"] == "sign" and pos % 2 == 0:
+                # a second signer right away: the very same arguments (hence the same preimage), ANOTHER key - and then the first key again
+                steps.append(dict(st, key=(0x7000 + pos).to_bytes(32, "big").hex(), compressed=not st["compressed"]))
+                steps.append(dict(st))
     return steps
 
 
@@ -330,8 +334,17 @@ def judge(ctx, case):
         return
     filled = False
     mut_after_fill = False
+    prev_bytes = None
     for st, rec in zip(case["steps"], r["ok"]["steps"]):
         op = st["op"]
+        # a sighash / sign / hash_inputs / accessor call only OBSERVES the transaction - whether it succeeds or is refused, the
+        # serialisation of the live object stays what it was after the previous step
+        if op in ("sighash", "sign", "sign_k", "hash_inputs", "accessors") and prev_bytes is not None and "bytes" in rec:
+            ctx.ev()
+            ctx.hit("observation_keeps_bytes")
+            if rec["bytes"] != prev_bytes:
+                ctx.viol("a %s call%s changes the serialisation of the live transaction" % ("sighash" if op in ("sighash", "sign", "sign_k") else op, " that is refused" if isinstance(rec.get("live"), dict) and "err" in rec["live"] else ""), {"before": prev_bytes[:300], "after": rec["bytes"][:300]})
+        prev_bytes = rec.get("bytes", prev_bytes)
         ctx.hit("op_" + op)
         if op in ("sighash", "sign", "sign_k"):
             ctx.ev()
